@@ -11,7 +11,10 @@ LEAN_PROPS = "PysamlModel.Props.C05"
 AUDIT = "PysamlModel/Audit/C05.lean"
 CORRESPONDENCE = "Drivers/Sp.lean (Sp.process) vs Saml2Client.parse_authn_request_response, time dimension"
 RULE = ("each of the six timestamps at each offset of the quantifier (absent, -1h, -skew-2s … +1d±) x skew in "
-        "{unset,0,60,180} x syntax {plain, fractional} under the frozen clock, complete; pairs and triples sampled; "
+        "{unset,0,60,180} x syntax {plain, fractional} under the frozen clock, complete; the confirmation/Conditions sweeps "
+        "repeated with an Address attribute, with conversation information and behind a data-less confirmation; the "
+        "Conditions/confirmation/IssueInstant sweeps repeated on the attribute-query answer path "
+        "(parse_attribute_query_response); pairs and triples sampled; a cross-dimension random stream; "
         "distinct = distinct (timestamp, offset, skew, syntax) cells")
 TRUSTED = C.TRUSTED_COMMON + ["time.strptime/calendar.timegm parse the rendered timestamps (str_to_time is exercised, not modelled)"]
 ASSUMPTIONS = C.ASSUMPTIONS_COMMON + ["the second where now == bound +- skew is unconstrained by the spec",
@@ -70,6 +73,37 @@ def gen_cases(rng, tier):
                     c = place(fresh(skew, syntax), stamp, off)
                     c["tag"] = "%s@%s/skew=%s/%s" % (stamp, off, skew, syntax)
                     yield c
+    # the same sweeps with features on the confirmation that must not switch a window off: an Address attribute,
+    # a Recipient check driven by conversation information, a data-less confirmation in front
+    for skew in (None, 60):
+        for stamp in ("sc_nb", "sc_nooa", "c_nooa", "c_nb", "sess"):
+            for off in offsets(skew):
+                for feat in ("address", "conv", "nodata-first"):
+                    c = place(fresh(skew, "z"), stamp, off)
+                    a = c["resp"]["assertions"][0]
+                    if feat == "address":
+                        a["subject"]["confs"][0]["data"]["address"] = "192.0.2.7"
+                    elif feat == "conv":
+                        c["env"]["conv_info"] = {"entity_id": S.SP_ID, "remote_addr": "192.0.2.7"}
+                        a["subject"]["confs"][0]["data"]["address"] = "192.0.2.7"
+                    else:
+                        a["subject"]["confs"].insert(0, {"method": "sender-vouches", "data": None})
+                    c["tag"] = "%s@%s/skew=%s/%s" % (stamp, off, skew, feat)
+                    yield c
+    # attribute-query answers (parse_attribute_query_response -> AttributeResponse): the same sweeps of the Conditions and
+    # confirmation timestamps and of IssueInstant, with and without an AuthnStatement in the assertion
+    for skew in (None, 0, 60, 180):
+        for stamp in ("c_nb", "c_nooa", "sc_nb", "sc_nooa", "ii"):
+            for off in offsets(skew):
+                c = place(fresh(skew, "z"), stamp, off)
+                c["env"]["kind"] = "attr"
+                c["env"]["binding"] = "soap"
+                c["return_addrs"] = []
+                c["resp"]["destination"] = None
+                if (off or 0) % 2 == 0:
+                    c["resp"]["assertions"][0]["authn"] = []
+                c["tag"] = "attr:%s@%s/skew=%s" % (stamp, off, skew)
+                yield c
     n = 400 if tier == "quick" else 6000
     for _ in range(n):
         skew = rng.choice([None, 0, 60, 180, 7])
@@ -100,6 +134,9 @@ def gen_cases(rng, tier):
             place(c, stamp, rng.choice(offsets(skew)[:14]))
         c["tag"] = "other-clock"
         yield c
+    # cross-dimension stream: every dimension of the SP model varied at once
+    for _ in range(150 if tier == "quick" else 4000):
+        yield C.random_full(rng, PROP)
 
 
 def finding_key(case, impl, lean):
